@@ -102,6 +102,59 @@ func (k *c10k) valNonNeg(fn *ssa.Function, v ssa.Value, blk *ssa.BasicBlock) boo
 	return k.leaf(fn, v, blk) || k.classNonNeg(v, 0)
 }
 
+// localFieldNonNeg: al is a struct variable whose address never leaves its
+// function (it is used only to address its fields and to copy the whole
+// value out), and every value stored into field f of it is non-negative (the
+// zero value it starts with is).
+func (k *c10k) localFieldNonNeg(al *ssa.Alloc, f int) bool {
+	if _, ok := al.Type().Underlying().(*types.Pointer).Elem().Underlying().(*types.Struct); !ok {
+		return false
+	}
+	for _, ref := range *al.Referrers() {
+		switch r := ref.(type) {
+		case *ssa.FieldAddr:
+			for _, fr := range *r.Referrers() {
+				switch u := fr.(type) {
+				case *ssa.Store:
+					if u.Addr != ssa.Value(r) {
+						return false // the field's address is stored somewhere
+					}
+					if r.Field == f && !k.valNonNeg(u.Parent(), u.Val, u.Block()) {
+						return false
+					}
+				case *ssa.UnOp, *ssa.DebugRef:
+				default:
+					if r.Field == f {
+						return false // address of this field escapes
+					}
+				}
+			}
+		case *ssa.UnOp:
+			if r.Op != token.MUL {
+				return false
+			}
+		case *ssa.Store:
+			// the whole value assigned at once: from a composite literal
+			// built in another local of the same kind
+			if r.Addr != ssa.Value(al) {
+				return false
+			}
+			ld, ok := r.Val.(*ssa.UnOp)
+			if !ok || ld.Op != token.MUL {
+				return false
+			}
+			src, ok := ld.X.(*ssa.Alloc)
+			if !ok || src == al || !k.localFieldNonNeg(src, f) {
+				return false
+			}
+		case *ssa.DebugRef:
+		default:
+			return false
+		}
+	}
+	return true
+}
+
 // nonNegOf is the NonNegOf hook: v is read from a class of locations into
 // which only non-negative values are ever stored.
 func (k *c10k) nonNegOf(c *bounds.Fn, v ssa.Value) bool { return k.classNonNeg(v, 0) }
@@ -128,6 +181,9 @@ func (k *c10k) classNonNeg(v ssa.Value, d int) bool {
 		}
 		switch a := x.X.(type) {
 		case *ssa.FieldAddr:
+			if al, ok := a.X.(*ssa.Alloc); ok && k.localFieldNonNeg(al, a.Field) {
+				return true
+			}
 			return k.fieldNonNeg(ssau.FieldOwner(a), ssau.FieldName(a))
 		case *ssa.IndexAddr:
 			return k.elemsNonNeg(a.X, d+1)
